@@ -85,7 +85,7 @@ def make_scenario(spec, mode, ref):
 
 def expected(scn, ref):
     classes = [c for _, c in scn["items"]]
-    err = any(c in ("m", "X", "C") for c in classes)
+    err = any(c in ("m", "X", "C", "Z") for c in classes)
     check = scn["mode"] == "check"
     rc = 2 if err else (1 if check and "U" in classes else 0)
     files = {}
@@ -393,7 +393,7 @@ SPECS_MORE = ["CU", "XUU", "UmX", "mXU", "FUm", "UFm", "UUU", "UUUm", "mUUU", "U
 # (b) sweep
 # ------------------------------------------------------------------------------------------------
 
-def big_tree(rng, n, ref, tag, configured=False):
+def big_tree(rng, n, ref, tag, configured=False, bad_last=False):
     """A tree of n files of mixed classes in directories, walked through directory arguments, plus missing paths.
     configured: directories carry their own stylua.toml with different option values, so that the
     text a file gets depends on its directory - and must not depend on which worker formats it, or
@@ -422,6 +422,16 @@ def big_tree(rng, n, ref, tag, configured=False):
     for a in argv:
         if a.startswith("missing"):
             items.append([a, "m"])
+    if bad_last:
+        # the last argument is a directory whose stylua.toml cannot be loaded: the run fails (2), its
+        # files stay as they are, and every file before it is still processed completely - for every
+        # thread count and schedule
+        files["zz/stylua.toml"] = L.enc(b"indent_widht = 3\n")
+        for k in range(3):
+            name = f"zz/z{k}_Z.lua"
+            items.append([name, "Z"])
+            files[name] = L.enc(clilib.lua_unformatted(900 + k).encode())
+        argv.append("zz")
     return {"name": f"tree{n}-{tag}", "items": items, "files": files, "argv": argv, "cfgs": cfgs}
 
 
@@ -536,6 +546,8 @@ def run(tier, seed):
         prng = clilib.Rng(190019)  # pinned trees
         sweep_scns += [with_mode(big_tree(prng, 24, ref, "pinned"), m) for m in ("check", "write")]
         sweep_scns += [with_mode(big_tree(prng, 40, ref, "pinned"), m) for m in ("check", "write")]
+        bprng = clilib.Rng(190021)  # pinned tree whose last directory has an unloadable configuration
+        sweep_scns += [with_mode(big_tree(bprng, 28, ref, "pinned-bad-last-dir", configured=True, bad_last=True), m) for m in ("check", "write")]
         cprng = clilib.Rng(190020)  # pinned trees with per-directory configuration
         sweep_scns += [with_mode(big_tree(cprng, 32, ref, "pinned-configured", configured=True), m) for m in ("check", "write")]
         srng = clilib.Rng(seed * 1000003 + 19)
